@@ -11,6 +11,10 @@ ASSUME = [
     "is claimed (checked in M with VirtualClock = FALSE)",
     "tokio time primitives behave as documented (sleep, interval with the default Burst policy, JoinHandle::abort drops the "
     "task before its next poll)",
+    "an executor stall (a CPU-bound handler or client holding the single executor thread) is produced on the virtual clock by "
+    "tokio::time::advance inside one poll; it is the only way time passes over the deadline of a runnable timer task. Under "
+    "stalls 'no drift' reads: the k-th deadline stays started + k*period, an operation happens at its deadline or at the end "
+    "of the stall that covered it, missed ticks fire back to back (Burst), later ticks are on time again",
     "the target is the Lifecycle/Mailbox abstraction of an actor: send_message is accepted iff the status is below Draining; "
     "status check and enqueue are one step at poll granularity",
     "send_interval with a zero period panics inside tokio::time::interval and is outside the property's quantifier",
@@ -28,6 +32,7 @@ PKG = {
         ("MC_Timer_exit.cfg", ("quick", "thorough"), {}),
         ("MC_Timer_kill.cfg", ("quick", "thorough"), {}),
         ("MC_Timer_free.cfg", ("quick", "thorough"), {}),
+        ("MC_Timer_stall.cfg", ("quick", "thorough"), {}),
         ("MC_Timer_instant.cfg", ("quick", "thorough"), {}),
         ("MC_Timer_instantfix.cfg", ("quick", "thorough"), {}),
         ("MC_Timer_big.cfg", ("thorough",), {"workers": 8, "timeout": 1800}),
@@ -43,7 +48,8 @@ PKG = {
     "rule": "one evaluation = one (scenario, schedule) execution on the gated paused-clock tokio runtime: a probe actor under a "
             "supervisor, 1-5 timers (send_after / send_interval / exit_after / kill_after through ActorCell, ActorRef and "
             "DerivedActorRef entry points; periods 0, 1, 5, 50 ms), client tasks that create / abort / join timers and stop / kill / "
-            "drain / fail the target at scripted virtual times (before, at, after expiry); two scenarios with three timers due at the same "
+            "drain / fail the target at scripted virtual times (before, at, after expiry); six scenarios with executor stalls over one or more deadlines (by the handler, by a client, two in a row, lateness 5 / 6 ms, "
+            "between the call and the first poll) and random stalls in the random scenarios; two scenarios with three timers due at the same "
             "instant explored by an unbounded DFS to exhaustion (every poll order), micro-scenarios by DFS over poll orders "
             "(preemption bound 3, capped) plus random orders, random scenarios under seeded random schedules; distinct = distinct event-sequence hash; "
             "non-trivial = at least one preemption",
